@@ -1,4 +1,155 @@
-(** C15 -- batch scripts request exactly the declared resources and launcher. *)
-From MWF Require Import Base.Str Gen.HeaderData Sched.Header Sched.Launcher Sched.Readers.
-Theorem C15_placeholder : True. Proof. exact I. Qed.
-Print Assumptions C15_placeholder.
+(** C15 -- batch scripts request exactly the declared resources and launcher.
+
+    Vocabulary (all in [Sched.Readers], the specification side):
+    - a [case] is a back-end, a batch block, a step (name, description, cmd,
+      restart, resource dictionary) and the decomposition of cmd / restart into
+      text pieces and launcher tokens of the documented forms;
+    - [H15 c] (decidable) is the hygiene domain: the pieces spell the commands,
+      counts are positive integers or decimal strings, printed values are
+      shell-safe words, keys are unique;
+    - [run_model c] is what [write_script] of the back-end's adapter produces
+      (models [Sched.Header] / [Sched.Launcher], tied to /repo by the
+      correspondence run): a script or an exception class;
+    - [read_sbatch], [read_srun], [script_body], [first_line] read a script the
+      way sbatch / srun / the shell do (written from their documented syntax);
+    - [effective_slurm b st k] is what is in effect for resource key [k]: the
+      step's value if declared, else the batch block's, else nothing;
+    - [C15_holds c o] / [C15_ok c o] is the monitor that the check evaluates on
+      the IMPLEMENTATION's scripts. *)
+From Coq Require Import List NArith Bool.
+From MWF Require Import Base.Str Gen.HeaderData Sched.Header Sched.Launcher Sched.Readers Sched.C15Proofs.
+Import ListNotations.
+
+(** ** The monitor holds of the model, for every case (Slurm, Local) *)
+Theorem C15_monitor_slurm : forall c,
+  c_be c = Slurm -> K6_batch_gpus c = false -> C15_ok c (run_model c) = true.
+Proof. exact C15_ok_slurm. Qed.
+Print Assumptions C15_monitor_slurm.
+
+Theorem C15_monitor_local : forall c, c_be c = Local -> C15_ok c (run_model c) = true.
+Proof. exact C15_ok_local. Qed.
+Print Assumptions C15_monitor_local.
+
+(** ** C15_local: a step with neither nodes nor procs (or any step under the
+    local adapter) is not scheduled; its script is the shebang followed by the
+    command verbatim; the same for the restart script. *)
+Theorem C15_local : forall c,
+  H15 c = true -> (c_be c = Slurm \/ c_be c = Local) ->
+  (schedulable (c_step c) = false \/ c_be c = Local) ->
+  exists sc, run_model c = OScript sc /\ sc_sched sc = false
+    /\ first_line (sc_text sc) = shebang_of (c_batch c)
+    /\ script_body (sc_text sc) = st_cmd (c_step c) ++ [nl]
+    /\ match st_restart (c_step c), sc_restart sc with
+       | [], None => True
+       | _ :: _, Some (_, rt) =>
+         first_line rt = shebang_of (c_batch c) /\ script_body rt = st_restart (c_step c) ++ [nl]
+       | _, _ => False
+       end.
+Proof. exact C15_local_lemma. Qed.
+Print Assumptions C15_local.
+
+(** ** C15_header_slurm / C15_launcher_slurm / C15_reject, in one statement:
+    a scheduled Slurm step is rejected with a diagnostic exactly when an
+    allocation exceeds the step's totals (the code's rule, sums included);
+    otherwise the generated script (and the restart script)
+    - starts with the shebang,
+    - reads back, for EVERY supported resource key, to exactly the effective
+      value -- present iff in effect, each at most once ([header_reads]),
+    - contains no launcher variable any more, and every launcher piece of the
+      command has become an srun invocation that reads back to the requested
+      tasks / nodes / cores per task ([launcher_reads]). *)
+Theorem C15_slurm_scheduled : forall c,
+  H15 c = true -> c_be c = Slurm -> K6_batch_gpus c = false -> schedulable (c_step c) = true ->
+  (rejected c = true /\ run_model c = OExc Diag) \/
+  (rejected c = false /\ exists sc, run_model c = OScript sc /\ sc_sched sc = true
+     /\ header_reads c (sc_text sc) /\ launcher_reads c (c_cmd c) (sc_text sc)
+     /\ match st_restart (c_step c), sc_restart sc with
+        | [], None => True
+        | _ :: _, Some (_, rt) => header_reads c rt /\ launcher_reads c (c_restart c) rt
+        | _, _ => False
+        end).
+Proof. exact C15_sched_lemma. Qed.
+Print Assumptions C15_slurm_scheduled.
+
+(** [header_reads] and [launcher_reads], spelled out *)
+Theorem C15_header_slurm : forall c text, header_reads c text ->
+  first_line text = shebang_of (c_batch c) /\
+  forall k, In k [RNodes; RTasks; RWalltime; RQueue; RBank; RReservation; RGpus; RExclusive; RQos] ->
+    read_sbatch text k = effective_slurm (c_batch c) (c_step c) k
+    /\ (count_key k (read_sbatch_all text) <= 1)%nat.
+Proof. intros c text H. exact H. Qed.
+Print Assumptions C15_header_slurm.
+
+Theorem C15_launcher_slurm : forall c ps text, launcher_reads c ps text ->
+  containsb launcher_var (script_body text) = false /\
+  match_body (launch_ok_slurm (c_step c)) (ps ++ [PText [nl]]) (script_body text) = true.
+Proof. intros c ps text H. exact H. Qed.
+Print Assumptions C15_launcher_slurm.
+
+Theorem C15_reject : forall c,
+  H15 c = true -> c_be c = Slurm -> K6_batch_gpus c = false -> schedulable (c_step c) = true ->
+  (run_model c = OExc Diag <-> rejected c = true) /\ run_model c <> OExc Internal.
+Proof. exact C15_reject_lemma. Qed.
+Print Assumptions C15_reject.
+
+(** ** C15_total (Slurm, Local): never an internal error *)
+Theorem C15_total_slurm_local : forall c, H15 c = true ->
+  (c_be c = Slurm /\ (schedulable (c_step c) = true -> K6_batch_gpus c = false)) \/ c_be c = Local ->
+  run_model c <> OExc Internal.
+Proof. exact C15_total_lemma. Qed.
+Print Assumptions C15_total_slurm_local.
+
+(** ** The scanner was written against these regex texts (T-data) *)
+Theorem C15_regex_texts : regex_text_matches = true.
+Proof. vm_compute; reflexivity. Qed.
+Print Assumptions C15_regex_texts.
+
+(** ** Known finding K6a: the batch-level [gpus] never reaches the Slurm header *)
+Definition k6a_witness : case :=
+  {| c_be := Slurm;
+     c_batch := {| b_kw := [(s "host", VStr (s "h")); (s "bank", VStr (s "b")); (s "queue", VStr (s "q"));
+                            (s "gpus", VInt 2)]; b_args := [] |};
+     c_broker := [];
+     c_step := {| st_name := s "s1"; st_desc := s "d"; st_cmd := s "$(LAUNCHER) a.out"; st_restart := [];
+                  st_res := [(s "nodes", VInt 1); (s "procs", VInt 2)] |};
+     c_cmd := [PBare; PText (s " a.out")]; c_restart := [] |}.
+Theorem C15_K6a_refuted : exists c,
+  H15 c = true /\ c_be c = Slurm /\ K6_batch_gpus c = true /\ C15_holds c (run_model c) = false.
+Proof. exists k6a_witness. vm_compute. repeat split; reflexivity. Qed.
+Print Assumptions C15_K6a_refuted.
+
+(** ** Non-vacuity: the hypotheses are satisfiable *)
+Definition ex_sched : case :=
+  {| c_be := Slurm;
+     c_batch := {| b_kw := [(s "host", VStr (s "quartz")); (s "bank", VStr (s "baasic")); (s "queue", VStr (s "pbatch"));
+                            (s "qos", VStr (s "normal"))]; b_args := [] |};
+     c_broker := [];
+     c_step := {| st_name := s "run sim"; st_desc := s "Run it";
+                  st_cmd := s "$(LAUNCHER)[1n, 2p] a.out" ++ [10%N] ++ s "$(LAUNCHER) b.out; $(LAUNCHER)[1,2] c";
+                  st_restart := s "$(LAUNCHER)[2p] a.out";
+                  st_res := [(s "nodes", VInt 2); (s "procs", VStr (s "4")); (s "walltime", VStr (s "00:10:00"));
+                             (s "cores per task", VInt 2); (s "exclusive", VBool true)] |};
+     c_cmd := [PTok (TNP (s "1") (s "2") 1); PText (s " a.out" ++ [10%N]); PBare; PText (s " b.out; ");
+               PTok (TLegacy (s "1") (s "2") 0); PText (s " c")];
+     c_restart := [PTok (TP (s "2")); PText (s " a.out")] |}.
+Example ex_sched_in_domain :
+  H15 ex_sched = true /\ K6_batch_gpus ex_sched = false /\ schedulable (c_step ex_sched) = true
+  /\ rejected ex_sched = false.
+Proof. vm_compute. repeat split; reflexivity. Qed.
+
+Definition ex_over : case :=
+  {| c_be := Slurm; c_batch := c_batch ex_sched; c_broker := [];
+     c_step := {| st_name := s "s"; st_desc := []; st_cmd := s "$(LAUNCHER)[2n,2p] a" ++ [10%N] ++ s "$(LAUNCHER)[1n,2p] b";
+                  st_restart := []; st_res := [(s "nodes", VInt 2); (s "procs", VInt 4)] |};
+     c_cmd := [PTok (TNP (s "2") (s "2") 0); PText (s " a" ++ [10%N]); PTok (TNP (s "1") (s "2") 0); PText (s " b")];
+     c_restart := [] |}.
+Example ex_over_rejected :
+  H15 ex_over = true /\ rejected ex_over = true /\ run_model ex_over = OExc Diag.
+Proof. vm_compute. repeat split; reflexivity. Qed.
+
+Definition ex_local : case :=
+  {| c_be := Local; c_batch := {| b_kw := [(s "shell", VStr (s "/bin/tcsh"))]; b_args := [] |}; c_broker := [];
+     c_step := {| st_name := s "s"; st_desc := []; st_cmd := s "echo hi"; st_restart := []; st_res := [] |};
+     c_cmd := [PText (s "echo hi")]; c_restart := [] |}.
+Example ex_local_in_domain : H15 ex_local = true.
+Proof. vm_compute. reflexivity. Qed.
